@@ -58,6 +58,22 @@ class GenericGen:
         for k, a in enumerate(["Option<i32>", "i32", "Option<String>", self.leaves[0].name]):
             self.entries.append((f"{it.id}#{k}", f"{it.name}<{a}>", [a], it, ["container" if "Option" in a else "prim"]))
 
+        # a generic struct that *is* its flattened member, instantiated several times in one process
+        inner = self.mk("named", fields=[Field("fix_body", Ty("param", "T")), Field("fix_seq", prim("i32"))])
+        inner.params = ["T"]
+        inner.generics_src = "<T>"
+        self.meta[inner.id] = {"role": "definition", "params": ["T"], "ts_params": ["T"], "defaults": [], "concrete": None, "lifetime": False,
+                               "const": False, "uses": {"T": "bare"}, "kind": "named", "tags": [], "optional_fields": None}
+        env = self.mk("named", fields=[Field("fix_inner", user(inner, Ty("param", "T")), flatten=True)])
+        env.params = ["T"]
+        env.generics_src = "<T>"
+        env.tags.append("k:only-flattened-member-generic")
+        self.meta[env.id] = {"role": "definition", "params": ["T"], "ts_params": ["T"], "defaults": [], "concrete": None, "lifetime": False,
+                             "const": False, "uses": {"T": "in-generic+flatten"}, "kind": "named", "tags": list(env.tags), "optional_fields": None}
+        for k, a in enumerate([self.leaves[0].name, "String", f"Vec<{self.leaves[1].name}>", "bool"]):
+            self.entries.append((f"{env.id}#{k}", f"{env.name}<{a}>", [a], env, ["user" if k == 0 else "prim"]))
+            self.entries.append((f"{inner.id}#{k}", f"{inner.name}<{a}>", [a], inner, ["user" if k == 0 else "prim"]))
+
     def param_use(self, params, p):
         r = self.r
         t = Ty("param", p)
@@ -92,7 +108,7 @@ class GenericGen:
             f = Field(f"f_{p.lower()}{self.n}", ty)
             # presentation of a generic-in-generic field
             if form.startswith("in-generic") and kind == "named":
-                pres = r.choice(["name", "name", "inline", "flatten"])
+                pres = r.choice(["name", "inline", "flatten", "flatten"])
                 if pres == "inline":
                     f.inline = True
                     uses[p] += "+inline"
@@ -116,6 +132,11 @@ class GenericGen:
         r.shuffle(fields)
         if kind == "named":
             it.fields = fields
+            flat = [f for f in fields if f.flatten]
+            if flat and nparams == 1 and not lifetime and not const and r.random() < 0.5:
+                # the flattened member is all there is (the struct *is* its flattened field)
+                it.fields = flat[:1]
+                it.tags.append("k:only-flattened-member-generic")
             if r.random() < 0.15:
                 it.optional_fields = r.choice(["opt", "nullable"])
                 it.tags.append("k:optional-fields-generic")
